@@ -12,6 +12,7 @@ var empty []byte
 
 func (m *MemoryKV) Put(ctx context.Context, key, value []byte) error {
 	v, _ := m.fetchVal(key)
+	verifPoint("mem.fetched")
 	curr := v.simple.Load()
 	if !v.simple.CompareAndSwap(curr, &value) {
 		return chord.ErrKVSimpleConflict
@@ -21,11 +22,13 @@ func (m *MemoryKV) Put(ctx context.Context, key, value []byte) error {
 
 func (m *MemoryKV) Get(ctx context.Context, key []byte) ([]byte, error) {
 	v, _ := m.fetchVal(key)
+	verifPoint("mem.fetched")
 	return *v.simple.Load(), nil
 }
 
 func (m *MemoryKV) Delete(ctx context.Context, key []byte) error {
 	v, _ := m.fetchVal(key)
+	verifPoint("mem.fetched")
 	curr := v.simple.Load()
 	if !v.simple.CompareAndSwap(curr, &empty) {
 		return chord.ErrKVSimpleConflict
